@@ -16,6 +16,14 @@ CHECKS = {
     technique='symbolic execution (CrossHair/z3) + SMT queries (z3 FP, z3 regex) from live AST',
     design='3/C07'),
 }
+CHECKS['C20'] = dict(
+    category='other',
+    text='Inductive step decided by bounded symbolic execution (CrossHair/z3) of the real _Configuration: its three maps hold an arbitrary symbolic pre-state over a concrete key universe, '
+         'one operation (declare, load, load_from_dict, load_from_file, flag values, reset, save_and_restore incl. raising body, attribute assignment) with symbolic arguments is applied, '
+         'and every read API (item, attribute, in, value holder, _asdict) is compared with a reference model. One step from an arbitrary state covers histories of any length over that universe.',
+    note='Trusted: CrossHair+z3, the LazyDict stand-in for the three dicts (part of the claim), the reference model written from the statement. Outside: keys outside the universe (code is uniform in the key), thread-safety, --config-file at import.',
+    technique='inductive-step symbolic execution (CrossHair/z3) against a reference model',
+    design='3/C20')
 NA_REASON = {}
 DEFAULT_NA = 'check not built yet in this round (work in progress; see DESIGN.md section 6 for the plan)'
 
